@@ -654,7 +654,7 @@ func (d *dec) parseAttribute(p []byte, where string, exact bool) (*Attr, bool) {
 	if !term || l != nl {
 		d.dev("attribute-name-not-terminated-at-size", where, fmt.Sprintf("name size %d, %q", nl, name))
 	}
-	a := &Attr{Name: name}
+	a := &Attr{Name: name, MsgVersion: ver, MsgFlags: fl}
 	w := where + "@" + name
 	tbody := tb[:tl]
 	if fl&1 != 0 {
@@ -699,6 +699,11 @@ func (d *dec) parseAttribute(p []byte, where string, exact bool) (*Attr, bool) {
 		return a, true
 	}
 	a.Raw = append([]byte{}, c.bytes(int(n))...)
+	a.Type = dt
+	if dt.Class == 9 {
+		raw := a.Raw
+		a.resolve = func() ([][]byte, string) { return d.vlenElements(raw, dt, w) }
+	}
 	if exact && c.left() != 0 {
 		d.dev("attribute-message-trailing-bytes", w, fmt.Sprintf("%d bytes after the data", c.left()))
 	}
